@@ -25,7 +25,7 @@ LEVEL_TEXT = ("The C09 scenario generator (random coastlines, jets with Courant 
               "checked by a python-side index monitor. Evidence reports the closest approach to each array edge that was actually observed.")
 LEVEL_NOTE = "numba's checker does not flag negative indices (they wrap); the shadow monitor covers those. A dying interpreter during a run counts as a violation."
 RULE = ("case = C09-style world/run with boundary-hugging releases. Non-trivial: some kernel call came within one cell of an array edge; distinct by case parameters.")
-MANDATORY = ["family_c09", "family_c14", "family_c10", "family_c08", "trilinear_calls", "z2s_kernel_calls", "sample3D_nearest_calls", "within_one_cell_of_edge", "scheme_RK2", "scheme_RK4", "subgrid", "boundscheck_active",
+MANDATORY = ["second_run_on_same_files_larger_grid", "family_c09", "family_c14", "family_c10", "family_c08", "trilinear_calls", "z2s_kernel_calls", "sample3D_nearest_calls", "within_one_cell_of_edge", "scheme_RK2", "scheme_RK4", "subgrid", "boundscheck_active",
              "surface_or_bottom_particles", "diffusion_on"]
 ASSUMPTIONS = ["N >= 2 (with a single level no level pair exists)"]
 BOUNDSCHECK = True
@@ -165,7 +165,20 @@ def run_case(case: dict[str, Any], wd: Path) -> dict[str, Any]:
         hk.wrap(R, "trilinear", shadow_tri, None)
         hk.wrap(R, "z2s_kernel", shadow_z2s, None)
         hk.wrap(R, "sample3D", shadow_s3d, None)
-        res, conf, world = run_scenario(scn, wd)
+        if fam == "c09" and case["idx"] % 3 == 0:
+            # history: first a run on a small subgrid of the same files, then (same process, same file names) the run proper
+            import copy  # noqa: PLC0415
+
+            pre = copy.deepcopy(scn)
+            pre["run"]["subgrid"] = [3, max(8, case["imax"] // 2), 2, max(7, case["jmax"] // 2)]
+            pre["run"]["release"]["rows"] = [[scn["run"]["start"], 1, 4.6, 3.6, 1.0]]
+            pre["run"]["ibm"] = {}
+            pre["run"]["output"] = dict(scn["run"]["output"], filename="pre.nc")
+            _r0, _c0, world0 = run_scenario(pre, wd, conf_name="pre.yaml")
+            res, conf, world = run_scenario(dict(world=None, run=scn["run"]), wd, world=world0)
+            sit["second_run_on_same_files_larger_grid"] = 1
+        else:
+            res, conf, world = run_scenario(scn, wd)
     sit["boundscheck_active"] = int(os.environ.get("NUMBA_BOUNDSCHECK") == "1")
     sit[f"scheme_{case['scheme']}"] = 1
     sit["subgrid"] = int(case["subgrid"] is not None)
